@@ -693,7 +693,7 @@ func allVecs(n int) [][]bool {
 
 func main() {
 	o := hx.ParseFlags()
-	w, err := hx.NewWriter(o, "From Verif Require Import Base.CaseCheck Dlq.Window Dlq.Routing Dlq.Check.", "wcase")
+	w, err := hx.NewWriter(o, "From Verif Require Import Base.CaseCheck Dlq.Window Dlq.WindowRle Dlq.Routing Dlq.Check.", "wcase")
 	if err != nil {
 		fmt.Fprintln(os.Stderr, err)
 		os.Exit(2)
@@ -710,6 +710,13 @@ func main() {
 			if !ok {
 				in = m
 			}
+			if e, _ := in["engine"].(string); e == "l1" || e == "l2" {
+				var lc lcase
+				if hx.Try(func() { lc = lcaseFromJSON(in) }) {
+					emitL(w, lc)
+				}
+				continue
+			}
 			if e, _ := in["engine"].(string); e == "r1" || e == "r2" {
 				var rc rcase
 				if hx.Try(func() { rc = rcaseFromJSON(in) }) {
@@ -722,6 +729,12 @@ func main() {
 				continue // not a well-formed case (e.g. a shrink candidate)
 			}
 			emit(w, c)
+		}
+	case o.Mode == "large":
+		// large windows / long histories (see large.go)
+		root := hx.NewRand(o.Seed ^ 0x4c41524745)
+		for i := 0; i < o.N; i++ {
+			emitL(w, genLarge(root.Fork(uint64(o.Shard)<<32|uint64(i)), o.Tier))
 		}
 	case strings.HasPrefix(o.Mode, "exhaustive"):
 		// mode = exhaustive/<parts>/<part>
